@@ -498,7 +498,8 @@ static void collect_frames_info(PacketizationContext* context_ptr, const EncodeC
             queue_entry_ptr->start_time_u_seconds,
             finish_time_seconds,
             finish_time_u_seconds);
-        output_stream_ptr->p_app_private = queue_entry_ptr->out_meta_data;
+        if (queue_entry_ptr->out_meta_data)
+            output_stream_ptr->p_app_private = queue_entry_ptr->out_meta_data;
         if (queue_entry_ptr->is_alt_ref)
             output_stream_ptr->flags |= (uint32_t)EB_BUFFERFLAG_IS_ALT_REF;
 
